@@ -40,8 +40,18 @@ def check_correlations(case):
     A = np.array(case["table"], dtype=dt)
     n, k = A.shape
     cols = case["columns"][:k]
-    df = pandas.DataFrame(A.copy(), columns=cols)
-    facts = dict(k=k, n=n, model=case["model"], draws=case["draws"], minmax=case["minmax"], dtype=case["dtype"])
+    # the frame's row index: default, a permutation of 0..n-1 (a sorted or shuffled frame), repeated labels (a concat), strings
+    ik = case.get("index", "default")
+    if ik == "permuted":
+        index = np.argsort(np.array(case["index_keys"][:n]), kind="stable")[::-1].copy()
+    elif ik == "repeated":
+        index = np.arange(n) // 2
+    elif ik == "strings":
+        index = ["r%d" % (n - i) for i in range(n)]
+    else:
+        index = None
+    df = pandas.DataFrame(A.copy(), columns=cols, index=index)
+    facts = dict(k=k, n=n, model=case["model"], draws=case["draws"], minmax=case["minmax"], dtype=case["dtype"], index=ik)
     A0 = A.copy()
     df0 = df.copy(deep=True)
 
@@ -49,10 +59,19 @@ def check_correlations(case):
         np.random.seed(case["seed"])
         return _cor.non_linear_correlations(data, _model(case["model"]), draws=case["draws"], minmax=case["minmax"])
 
+    # columns whose training half is constant in some draw although the column is not (halves re-drawn with the same seed)
+    np.random.seed(case["seed"])
+    learnable = np.ones(k, dtype=bool)
+    for _ in range(case["draws"]):
+        tr_idx, _te = train_test_split(np.arange(n), test_size=0.5)
+        for j in range(k):
+            col = A[:, j]
+            if len(set(col.tolist())) > 1 and len(set(col[tr_idx].tolist())) < 2:
+                learnable[j] = False
     ra = call(A)
     rf = call(df)
     require(np.array_equal(A, A0), "input-modified:array", "", facts)
-    require(df.equals(df0) and list(df.columns) == list(df0.columns), "input-modified:frame", "", facts)
+    require(df.equals(df0) and list(df.columns) == list(df0.columns) and list(df.index) == list(df0.index), "input-modified:frame", "", facts)
     if case["minmax"]:
         require(isinstance(ra, tuple) and len(ra) == 3 and isinstance(rf, tuple) and len(rf) == 3, "minmax:not-three", "", facts)
         names = ("cor", "min", "max")
@@ -72,8 +91,12 @@ def check_correlations(case):
         require(bool(np.all(a >= -1e-12)) and bool(np.all(a <= 1 + 1e-12)), "range:" + name, "min %r max %r" % (float(a.min()), float(a.max())), facts)
         if case["model"] != "tree":
             # a tree is a discontinuous learner: the 1-ulp difference between scale(frame) and scale(array) can flip a
-            # tie between two equally good splits, so equality is only demanded of the continuous learners
-            require(bool(np.all(np.abs(a - fv) <= 1e-9)), "frame!=array:" + name, "max abs difference %r" % float(np.abs(a - fv).max()), facts)
+            # tie between two equally good splits, so equality is only demanded of the continuous learners - and, for the linear
+            # model, only of rows whose predictor column is not constant on a training half (a least-squares slope on a constant
+            # column is 0/0 at rounding level: 1 ulp in the scaled data changes it arbitrarily)
+            rows_ok = learnable if case["model"] == "linear" else np.ones(k, dtype=bool)
+            dd = np.abs(a - fv)[rows_ok]
+            require(bool(np.all(dd <= 1e-9)), "frame!=array:" + name, "max abs difference %r" % (float(dd.max()) if dd.size else 0.0), facts)
         mats[name] = a
     if case["minmax"]:
         require(bool(np.all(mats["min"] <= mats["cor"] + 1e-12)) and bool(np.all(mats["cor"] <= mats["max"] + 1e-12)), "minmax:order",
@@ -84,20 +107,12 @@ def check_correlations(case):
     if case["model"] == "linear":
         # "a model able to learn the identity": LinearRegression learns x -> x from a training half iff that half is
         # not constant (or the whole column is).  The halves are re-drawn here with the same seed.
-        np.random.seed(case["seed"])
-        learnable = np.ones(k, dtype=bool)
-        for _ in range(case["draws"]):
-            tr_idx, _te = train_test_split(np.arange(n), test_size=0.5)
-            for j in range(k):
-                col = A[:, j]
-                if len(set(col.tolist())) > 1 and len(set(col[tr_idx].tolist())) < 2:
-                    learnable[j] = False
         dg = np.diag(mats["cor"])
         diag_checked = int(learnable.sum())
         require(bool(np.all(np.abs(dg[learnable] - 1) <= 1e-9)), "diagonal:not-1", "diagonal %r (identity learnable: %r)" % (dg.tolist(), learnable.tolist()), facts)
     const = bool(np.any(A.std(axis=0) == 0))
     return Outcome([case["model"], "k=%d" % k, "draws=%d" % case["draws"], "minmax" if case["minmax"] else "single", case["dtype"],
-                    "const-col" if const else "no-const-col"], k >= 2 and case["draws"] >= 2)
+                    "const-col" if const else "no-const-col", "index:" + ik], k >= 2 and case["draws"] >= 2)
 
 
 @st.composite
@@ -123,7 +138,9 @@ def _cor_cases(draw, tier="quick"):
     if draw(st.booleans()):
         labels = draw(st.lists(st.integers(0, 20), min_size=5, max_size=5, unique=True))
     return dict(table=table, columns=labels, dtype=dtype, model=draw(st.sampled_from(["linear", "linear", "tree", "dummy"])),
-                draws=draw(st.integers(1, 4)), minmax=draw(st.booleans()), seed=draw(st.integers(0, 2**31 - 2)))
+                draws=draw(st.integers(1, 4)), minmax=draw(st.booleans()), seed=draw(st.integers(0, 2**31 - 2)),
+                index=draw(st.sampled_from(["default", "default", "permuted", "repeated", "strings"])),
+                index_keys=draw(st.lists(st.integers(0, 10**6), min_size=40, max_size=40)))
 
 
 # ------------------------------------------------------------------------ r2_score_comparable
